@@ -4,6 +4,7 @@ import (
 	"bufio"
 	"encoding/json"
 	"fmt"
+	"math"
 	"os"
 	"strings"
 
@@ -197,6 +198,8 @@ func ExtractQueryFromFile(file string) (string, error) {
 	}(queryFileContent)
 	query := ""
 	scanner := bufio.NewScanner(queryFileContent)
+	// a query may be written on one line of any length
+	scanner.Buffer(make([]byte, 0, bufio.MaxScanTokenSize), math.MaxInt32)
 	findLineFound := false
 	for scanner.Scan() {
 		line := scanner.Text()
